@@ -31,7 +31,7 @@ pub fn lexemes(kind: &str, k: SyntaxKind) -> Vec<String> {
         "INTEGER" => &["1", "0", "1_000", "0x1", "0b1"],
         "STRING" => &["\"s\"", "\"\"", "\"é\\\"💣\"", "\"a\nb\"", "\"\\ℝ\"", "\"\\💣x\"", "\"c:\\日本\"", "\"日本\"", "\"héé\"", "\"\\\\\"",
                       // escapes, well-formed and not (any character may follow a backslash as far as the lexer is concerned)
-                      "\"\\u{41}\"", "\"\\u}\"", "\"\\u{\"", "\"\\uℝ}\"", "\"\\u{zz}\"", "\"\\x\\n\\t\""],
+                      "\"\\u{41}\"", "\"\\u{100000000}\"", "\"\\u{FFFFFFFFFFFFFFFFF}\"", "\"\\u}\"", "\"\\u{\"", "\"\\uℝ}\"", "\"\\u{zz}\"", "\"\\x\\n\\t\""],
         "ERROR" => &["$", "\"", "é", "\r", "&", "'", "~", "\"unterminated \\", "`", "?", "^", ";", "\u{FEFF}", "\u{00A0}", "\u{2028}", "ℝ", "💣"],
         _ => {
             // symbols and keywords: Display is the quoted token text
